@@ -1,6 +1,18 @@
-// further commands (deciders, macros, tree, prover)
+// further command families, one module each
 use crate::*;
 
 pub fn dispatch(fields: &[&str]) -> String {
+    for d in [
+        cmd_cps::dispatch,
+        cmd_reason::dispatch,
+        cmd_segment::dispatch,
+        cmd_macro::dispatch,
+        cmd_tree::dispatch,
+        cmd_prover::dispatch,
+    ] {
+        if let Some(a) = d(fields) {
+            return a;
+        }
+    }
     format!("HARNESS-ERROR:unknown command {:?}", fields.first())
 }
